@@ -44,6 +44,7 @@ INVARIANT LongerReplayContinues
 INVARIANT DivergenceDetectedBothSigns
 INVARIANT StreamConsumed
 INVARIANT CutReplay
+INVARIANT SubstitutedReplay
 INVARIANT DeviationExplained
 INVARIANT BaseIndependent
 INVARIANT Discriminating
@@ -575,7 +576,7 @@ def codec_part(ck, tier):
     WIDE = tier != "quick"
     t0 = time.time()
     leaves = gen_codec.QUICK_LEAVES if tier == "quick" else gen_codec.BOUNDARY_LEAVES
-    nrand = 40 if tier == "quick" else 500
+    nrand = 34 if tier == "quick" else 500
     max_rows = 10 if tier == "quick" else 40
     if os.environ.get("C18_NRAND"):  # debugging / mutant runs: a smaller batch
         nrand = int(os.environ["C18_NRAND"])
@@ -682,6 +683,162 @@ def codec_part(ck, tier):
         ck.cov["explanation_unmatched"] = "samples of the real code without a row in Codec.tla (sampler-level difference, C01's business): skipped"
 
 
+# --------------------------------------------------------------------------- compile options
+
+OPTIONS_CFG = """SPECIFICATION Spec
+INVARIANT AcceptIffEqual
+INVARIANT OneComponentRefused
+INVARIANT KeyNamedOverrideCounts
+INVARIANT OrderIrrelevant
+INVARIANT Discriminating
+INVARIANT DeviationExplained
+INVARIANT EmitPair
+CHECK_DEADLOCK FALSE
+"""
+
+OPTIONS_PROGRAM = """model c18_model_a
+param scenario = 'cut_in'
+param mode2D = 0
+param modelOverride = 'none'
+param model = 'm'
+param params = 0
+param gap = Range(5, 10)
+param lane = 1
+param flag = 0
+scenario Main():
+    setup:
+        ego = new Object at Range(0, 10) @ 0, with foo Uniform(1, 2, 3)
+scenario Other():
+    setup:
+        ego = new Object at Range(0, 10) @ 1, with foo Uniform(1, 2, 3)
+"""
+
+
+def option_valuations(tier):
+    """Compile-option valuations: each differs from the first in exactly one component (mode2D,
+    model override, selected scenario, one parameter override), overrides are named both
+    ordinarily and like the option keys themselves, with values of several types; plus pairs that
+    are the same valuation written differently and 'override named like an option vs the option'."""
+    V = []
+
+    def val(mode2D=False, model=None, scenario=None, params=None):
+        V.append({"mode2D": mode2D, "model": model, "scenario": scenario, "params": params or {}})
+
+    val()
+    val(mode2D=True)
+    val(model="c18_model_b")
+    val(scenario="Other")
+    for v in (6, 7, 6.0, "6", [1], [2]):
+        val(params={"gap": v})
+    for v in (True, 1, "True"):
+        val(params={"flag": v})
+    for v in ("cut_in", "merge", "Other"):
+        val(params={"scenario": v})
+    for v in (1, 2, True):
+        val(params={"mode2D": v})
+    val(params={"modelOverride": "c18_model_b"})
+    val(params={"model": "c18_model_b"})
+    val(params={"params": 3})
+    val(params={"gap": 6, "lane": 2})
+    val(params={"lane": 2, "gap": 6})
+    val(mode2D=True, params={"mode2D": True})
+    val(scenario="Other", params={"scenario": "Other"})
+    if tier != "quick":
+        val(model="c18_model_b", params={"modelOverride": "c18_model_b"})
+        val(params={"lane": 2})
+        val(params={"gap": 6, "lane": 3})
+        val(mode2D=True, scenario="Other")
+        val(params={"scenario": "merge", "mode2D": 2})
+    return V
+
+
+def options_part(ck, tier):
+    """Cross-compatibility matrix of compile options: encode under A, decode under B, for every
+    ordered pair; CodecOptions.tla says accept iff A = B as valuations."""
+    import random
+
+    import scenic
+
+    t0 = time.time()
+    V = option_valuations(tier)
+
+    def ty(x):
+        return {bool: "bool", int: "int", float: "float", str: "str"}.get(type(x), "other")
+
+    path = os.path.join(scratch(), "vals.json")
+    with open(path, "w") as f:
+        json.dump([{"mode2D": int(v["mode2D"]), "model": v["model"] or "", "scenario": v["scenario"] or "Main",
+                    "params": [[k, ty(x), str(x)] for k, x in v["params"].items()]} for v in V], f)
+    res = run_tlc("CodecOptions", OPTIONS_CFG, env={"VALS": path}, coverage=True, timeout=600, heap="2g")
+    ck.add_tlc("CodecOptions", res)
+    if not all(res.coverage.get(a, (0, 0))[1] for a in ("Encode", "Decode")):
+        raise MachineryError("CodecOptions actions never taken")
+    expect = {(o["a"] - 1, o["b"] - 1): o for o in res.outputs}
+    if len(expect) != len(V) ** 2:
+        raise MachineryError(f"CodecOptions printed {len(expect)} pairs for {len(V)} valuations")
+
+    mdir = os.path.join(scratch(), "models")
+    os.makedirs(mdir, exist_ok=True)
+    for nm in ("a", "b"):
+        with open(os.path.join(mdir, f"c18_model_{nm}.scenic"), "w") as f:
+            f.write(f"param fromModel = '{nm}'\n")
+    if mdir not in sys.path:
+        sys.path.insert(0, mdir)
+    scs, scenes, datas = [], [], []
+    for v in V:
+        kw = {"mode2D": v["mode2D"], "params": dict(v["params"])}
+        if v["model"]:
+            kw["model"] = v["model"]
+        if v["scenario"]:
+            kw["scenario"] = v["scenario"]
+        sc = scenic.scenarioFromString(OPTIONS_PROGRAM, **kw)
+        random.seed(77)
+        scene, _ = sc.generate(maxIterations=20)
+        scs.append(sc)
+        scenes.append(scene)
+        datas.append(sc.sceneToBytes(scene))
+    n = {"pairs": 0, "accepted": 0, "refused": 0, "one_component": 0, "key_named": 0}
+    keys = {"scenario", "mode2D", "modelOverride", "model", "params"}
+    for a, va in enumerate(V):
+        for b, vb in enumerate(V):
+            e = expect[(a, b)]
+            n["pairs"] += 1
+            cls, r = decode(scs[b], datas[a])
+            rep = {"property": "C18", "part": "options", "program": OPTIONS_PROGRAM, "encoded_under": va, "decoded_under": vb,
+                   "differ_in": e["diff"], "observed": cls, "data": datas[a].hex()}
+            ck.case(("options", a, b), bool(e["diff"]))
+            if len(e["diff"]) == 1:
+                n["one_component"] += 1
+            if set(e["diff"]) & keys:
+                n["key_named"] += 1
+            if e["accept"]:
+                # the same valuation (possibly written in another order / compiled again): same scene
+                if cls != "scene" or (va == vb and scene_view(r) != scene_view(scenes[a])):
+                    ck.violation(f"data encoded under {va} not decoded under the equal options {vb}: {cls}", rep)
+                else:
+                    n["accepted"] += 1
+                    ck.validated(1)
+                continue
+            if cls == "SerializationError":
+                n["refused"] += 1
+                ck.validated(1)
+                continue
+            known = None
+            # trigger: the as-implemented digest (str(value) without the type) cannot tell the two apart
+            if cls == "scene" and e["impl"] == 1:
+                known = "options-value-type"
+            rep["decoded_params"] = repr(getattr(r, "params", r))
+            rep["original_params"] = repr(scenes[a].params)
+            ck.violation(f"data encoded under compile options {va} was {'decoded' if cls == 'scene' else 'met with ' + str(r)} by a "
+                         f"scenario compiled with {vb} (they differ in {e['diff']}) instead of being refused", rep, known_key=known)
+    n["valuations"] = len(V)
+    ck.cov["options_part"] = n
+    ck.sample({"options matrix": {"encoded_under": V[15], "decoded_under": V[16], "expected": "SerializationError"}}, limit=6)
+    ck.cov.setdefault("timing_s", {})["options"] = round(time.time() - t0, 1)
+    if n["refused"] == 0 or n["accepted"] == 0:
+        raise MachineryError("options part exercised nothing")
+
+
 # --------------------------------------------------------------------------- real code: replays
 
 DRAW_KINDS = {
@@ -726,7 +883,7 @@ def replay_cases(tier):
 
     def case(**kw):
         c = dict(kind="drange", T=2, T2=2, D=3, stop=2, chk=0, tol4=0, cont=0, pert=[0, "none", [0, 0, 0]], rec=[], cut=-1,
-                 prop="", obj=0, base=0, nano=0)
+                 prop="", obj=0, base=0, nano=0, sub=[0, 0])
         c.update(kw)
         cases.append(c)
 
@@ -741,6 +898,10 @@ def replay_cases(tier):
                         case(kind=kind, T=T, T2=T2, chk=chk)
     for cut in (0, 1, 2):  # a cut recording (without divergence data every byte is a field)
         case(T=2, T2=3, cut=cut)
+    for f in (1, 2):  # a corrupted recording: one recorded draw replaced by another value of its domain
+        for v in (0, 1, 2):
+            for kind in ("drange", "uniform"):
+                case(kind=kind, T=2, T2=2 + (f + v) % 2, sub=[f, v])
     # perturbations around the tolerance, both signs
     n = 0
     scal = {0: [1, -1], 2: [1, -1, 2, -2, 3, -3], 5: [4, -4, 5, -5, 6, -6]}
@@ -942,6 +1103,12 @@ def replay_worker(item):
             nscene = len(sc.sceneToBytes(scene))
             width = 8 if case["kind"] == "range" else 1
             data = data[: nscene + 6 + width * case["cut"]]
+        if case.get("sub", [0, 0])[0]:  # recorded draw f (one byte: the value / option index) replaced
+            nscene = len(sc.sceneToBytes(scene))
+            f_, v_ = case["sub"]
+            if f_ <= len(rec_draws):
+                k_ = nscene + 6 + f_ - 1
+                data = data[:k_] + bytes([v_]) + data[k_ + 1:]
         # ---- replay
         obs = None
         try:
@@ -1043,6 +1210,25 @@ def sim_truncation(ck):
                 ck.validated(1)
             except Exception as e:
                 ck.violation(f"simulation data truncated to {k} of {len(data)} bytes escaped as {type(e).__name__}: {e}", rep)
+        # representative single-byte changes of the replay part (header, recorded draws, recorded
+        # dynamic values): a simulation, SerializationError, or -- a recorded dynamic value was
+        # changed -- DivergenceError; nothing else may escape
+        from scenic.core.simulators import DivergenceError
+
+        span = list(range(nscene, len(data))) if len(data) - nscene <= 80 else \
+            list(range(nscene, nscene + 50)) + list(range(len(data) - 30, len(data)))
+        for k in span:
+            for b in flip_vals(data[k]):
+                n += 1
+                rep = {"property": "C18", "part": "simulation corruption", "program": text, "data": data.hex(), "flip_at": k, "flip_to": b}
+                try:
+                    with watchdog(60), srng.Scripted(prefix=[]):
+                        sc.simulationFromBytes(data[:k] + bytes([b]) + data[k + 1:], lattice_simulator(None), maxSteps=3)
+                    ck.validated(1)
+                except (SerializationError, DivergenceError):
+                    ck.validated(1)
+                except Exception as e:
+                    ck.violation(f"simulation data with byte {k} changed to {b} escaped as {type(e).__name__}: {e}", rep)
     return n
 
 
@@ -1051,7 +1237,7 @@ def replay_part(ck, tier):
     cases = replay_cases(tier)
     path = os.path.join(scratch(), "replay_cases.json")
     with open(path, "w") as f:
-        json.dump([{k: c[k] for k in ("T", "T2", "D", "stop", "chk", "tol4", "cont", "pert", "rec", "cut", "base", "nano")} for c in cases], f)
+        json.dump([{k: c[k] for k in ("T", "T2", "D", "stop", "chk", "tol4", "cont", "pert", "rec", "cut", "base", "nano", "sub")} for c in cases], f)
     res = run_tlc("Replay", REPLAY_CFG, env={"CASES": path}, coverage=True, timeout=1200, heap="2g")
     ck.add_tlc("Replay", res)
     need = ["Update", "TimeLimit", "DrawRecorded", "DrawReplayed", "DrawFresh", "StartReplay"]
@@ -1116,7 +1302,8 @@ def replay(path):
         case = rep["case"]
         cpath = os.path.join(scratch(), "case.json")
         with open(cpath, "w") as f:
-            json.dump([{k: case.get(k, 0) for k in ("T", "T2", "D", "stop", "chk", "tol4", "cont", "pert", "rec", "cut", "base", "nano")}], f)
+            json.dump([dict({k: case.get(k, 0) for k in ("T", "T2", "D", "stop", "chk", "tol4", "cont", "pert", "rec", "cut", "base", "nano")},
+                            sub=case.get("sub", [0, 0]))], f)
         res = run_tlc("Replay", REPLAY_CFG, env={"CASES": cpath}, timeout=600)
         runs = [o for o in res.outputs if o["sem"] != "ideal" or (o["rec"] + ([case["stop"]] if o["recTerm"] == "behavior" else []) == rep["recorded_draws"] and o["fresh"] == rep["fresh_draws"])]
         out = replay_worker((0, case, runs))
@@ -1152,7 +1339,9 @@ def main(tier):
         "replay: DummySimulator-like simulator written in the harness; scalar and axis-aligned / Pythagorean vector "
         "perturbations on the quarter lattice so that |actual - expected| is exact in floating point",
     ]
-    codec_part(ck, tier)
+    if os.environ.get("C18_SKIP_CODEC") != "1":
+        codec_part(ck, tier)
+    options_part(ck, tier)
     if os.environ.get("C18_SKIP_REPLAY") != "1":
         replay_part(ck, tier)
     ck.cov["exhaustive"] = False
